@@ -150,11 +150,13 @@ def check(r):
         "origin (z <> 0, (x,y) <> (0,0)) where the code would return NaN",
     ]
     r.assumptions += [
-        "ecef_to_lla (Olson): PROVED are the structure of the final step (C16_olson_newton_step: if the series guess is "
-        "exact the Newton correction vanishes and the output is the exact geodetic triple, all four paths), the exact "
-        "inverse on the equatorial plane and on the polar axis, and the longitude round trip for every point off the "
-        "axis; the ACCURACY of the series guess for a general point (hence the quantitative latitude/altitude round-trip "
-        "error off those sub-domains) is NOT proved and stays a numerical support check",
+        "ecef_to_lla (Olson): PROVED are the structure of the final step (C16_olson_step_is_newton: for any point and "
+        "any guess it is the Newton step p = m / (R_meridian(guess) + f) on the residual of the forward map, altitude "
+        "f + m p / 2; C16_olson_newton_step: if the series guess is exact the correction vanishes and the output is the "
+        "exact geodetic triple, all four paths), the exact inverse on the equatorial plane and on the polar axis, and the "
+        "longitude round trip for every point off the axis; the ACCURACY of the series guess for a general point (hence "
+        "the quantitative latitude/altitude round-trip error off those sub-domains) is NOT proved and stays a numerical "
+        "support check",
         "C16_lla_to_ned_first_order and C16_curvature_is_frame_rotation are derivative-at-0 statements (is_derive) for "
         "-90 < lat < 90, alt > -6000 km; the size of the second-order remainder is only checked numerically (support)",
     ]
